@@ -33,3 +33,56 @@ class SymDict(dict):
             return self[key]
         except KeyError:
             return default
+
+
+class SymMap:
+    """Mapping with symbolic keys and values (not a dict: no hashing).  Lookups are decided by the solver; a later pair with an
+    equal key overrides an earlier one, as in a dict built by successive assignments."""
+
+    def __init__(self, pairs):
+        self.pairs = list(pairs)
+
+    class _Keys:
+        def __init__(self, m):
+            self.m = m
+
+        def __contains__(self, k):
+            for kk, _ in self.m.pairs:
+                if kk == k:
+                    return True
+            return False
+
+        def __iter__(self):
+            return iter(k for k, _ in self.m.pairs)
+
+        def __len__(self):
+            return len(self.m.pairs)
+
+    def keys(self):
+        return SymMap._Keys(self)
+
+    def __contains__(self, k):
+        return k in self.keys()
+
+    def __getitem__(self, k):
+        for kk, v in reversed(self.pairs):
+            if kk == k:
+                return v
+        raise KeyError(k)
+
+    def get(self, k, default=None):
+        try:
+            return self[k]
+        except KeyError:
+            return default
+
+    def items(self):
+        return list(self.pairs)
+
+    def __len__(self):
+        return len(self.pairs)
+
+    def __format__(self, spec):
+        return "<symmap>"
+
+    __repr__ = __str__ = lambda self: "<symmap>"
